@@ -76,7 +76,7 @@ class Ctx:
     # on an association map, an order-dependent value reaching an output ...).  What they find is a fact about a
     # statement, whatever the style of the function around it; only a function the snapshot does not know at all may
     # be a moved piece of an allowed writer
-    CENSUS = {"C08.R2", "C08.R3", "C04.R8", "C12.R6", "C14.R3", "C18.R6", "C08.R4", "C08.R8", "C14.R1", "C16.R1", "C16.R3", "C10.R1", "C15.R1", "C15.R2"}
+    CENSUS = {"C15.R1", "C08.R2", "C08.R3", "C04.R8", "C12.R6", "C14.R3", "C18.R6", "C08.R4", "C08.R8", "C14.R1", "C16.R1", "C16.R3", "C10.R1", "C15.R1", "C15.R2"}
 
     def violation(self, key, msg, loc="", **detail):
         if self.rule not in self.TABLE_SPECS:
